@@ -205,7 +205,7 @@ async def scenario_h1(env: Any, case: Dict[str, Any]) -> Any:
         await env.settle(50.0)
     if case.get("truncate") is not None:
         conn.eof()
-    await env.settle(50.0)
+    await wait_for_applications(env)
     conn.eof()
     await env.settle(50.0)
     return conn
@@ -265,10 +265,22 @@ async def scenario_h2(env: Any, case: Dict[str, Any]) -> Any:
             stalls += 1
     if case.get("truncate") is not None:
         conn.eof()
-    await env.settle(50.0)
+    await wait_for_applications(env)
     conn.eof()
     await env.settle(50.0)
     return conn
+
+
+async def wait_for_applications(env: Any, rounds: int = 400) -> None:
+    """The client has said everything; a slow application may still be working through what is
+    queued for it (its reads pace the server's). The client stays until that has stopped."""
+    seen = -1
+    for _ in range(rounds):
+        await env.settle(50.0)
+        n = sum(1 for e in env.log.events if e["kind"] == "app_recv")
+        if n == seen:
+            break
+        seen = n
 
 
 def judge(case: Dict[str, Any], obs: Any) -> None:
